@@ -1,6 +1,6 @@
 (** Entry point of the extracted model driver: one case line in, one result line out.
     The first token selects the operation. *)
-From Lisp Require Import Wire Equal Boot Binder Arena Scanner Reader Printer.
+From Lisp Require Import Wire Equal Boot Binder Arena Scanner Reader Printer Preamble.
 
 Definition bad : list N := s_ "BADCASE".
 
@@ -274,6 +274,33 @@ Definition run_read_print_read (ts : list tok) : list N :=
   | _ => bad
   end.
 
+(** A <n> (name value)* <str>: AddPreamble then READWithPreamble; Y <module?> <env?> <str>: READWithPreamble *)
+Definition run_add_preamble (ts : list tok) : list N :=
+  match ts with
+  | TNum n :: r =>
+      match parse_phmap (Z.to_nat n) r with
+      | Some (mp, r1) =>
+          match parse_str r1 with
+          | Some (src, []) => show_read_outcome (read_with_preamble None None (add_preamble src mp))
+          | _ => bad
+          end
+      | None => bad
+      end
+  | _ => bad
+  end.
+
+Definition run_read_preamble (ts : list tok) : list N :=
+  match ts with
+  | TNum md :: TNum hasenv :: r =>
+      match parse_str r with
+      | Some (src, []) =>
+          show_read_outcome (read_with_preamble (if Z.eqb md 0 then None else Some (s_ "mod"))
+                                                (if Z.eqb hasenv 0 then None else Some std_ext) src)
+      | _ => bad
+      end
+  | _ => bad
+  end.
+
 Definition run_tokens (ts : list tok) : list N :=
   match ts with
   | TTag c :: r =>
@@ -284,6 +311,8 @@ Definition run_tokens (ts : list tok) : list N :=
       else if N.eqb c (tagc "T") then run_tokenize r
       else if N.eqb c (tagc "R") then run_read r
       else if N.eqb c (tagc "W") then run_print_read r
+      else if N.eqb c (tagc "A") then run_add_preamble r
+      else if N.eqb c (tagc "Y") then run_read_preamble r
       else if N.eqb c (tagc "X") then run_read_print_read r
       else bad
   | _ => bad
